@@ -3,8 +3,8 @@ NEXT HNext
 CONSTANTS
   Datas <- MCDatas
   Scripts <- MCScripts
-  CLs <- MCCLs
-  Sizes <- MCSizes
+  CLs <- QCLs
+  Sizes <- QSizes
   ShortReads = TRUE
   ChargeByRequested = FALSE
   BoundLineOps = TRUE
@@ -12,6 +12,9 @@ CONSTANTS
   CountTruncated = TRUE
   HonourDisconnect = TRUE
   TellFromZero = TRUE
+  RejectNegativeCL = TRUE
+  AccountBeforeYield = TRUE
+  ExhaustToTheEnd = TRUE
   Depth = 2
   MaxEvents = 1
   MaxEvLen = 0
